@@ -217,6 +217,47 @@ def cluster_part(ck):
             if pr and (abs(dp.outlier_prob - math.log(pr)) > 1e-12 or abs(dp.outlier_prob_not - math.log1p(-pr)) > 1e-12):
                 ck.violation("C05|outlier_terms", "unclustered data point has outlier terms %r / %r for p=%s" % (dp.outlier_prob, dp.outlier_prob_not, pr), {"p": pr})
         ck.nontrivial("cluster:%s" % pr)
+    # the cluster file lists mutations the loader drops (zero major copy number in a sample, missing in a sample,
+    # duplicated) in the first and the middle cluster: every data point is the sum of its KEPT members' grids
+    # (the outlier terms are not judged here: "cluster size" is ambiguous once members are dropped)
+    muts2 = ["a1", "a2", "a3", "b1", "b2", "b3", "b4", "c1", "c2", "c3"]
+    cl2 = {m: {"a": "K1", "b": "K2", "c": "K3"}[m[0]] for m in muts2}
+    rows2 = []
+    for k, m in enumerate(muts2):
+        for s in ("S1", "S2"):
+            if m == "b2" and s == "S2":
+                continue                                     # missing in a sample
+            r = {"mutation_id": m, "sample_id": s, "ref_counts": 25 + 2 * k, "alt_counts": 3 + k, "major_cn": (0 if (m == "a2" and s == "S1") else 2), "minor_cn": 0 if m == "a2" else 1,
+                 "normal_cn": 2, "tumour_content": 0.9, "error_rate": 0.001}
+            rows2.append(r)
+            if m == "b4" and s == "S1":
+                rows2.append(dict(r))                        # duplicated
+    kept2 = [m for m in muts2 if m not in ("a2", "b2", "b4")]
+    p2 = os.path.join(d, "in2.tsv")
+    write_rows(p2, rows2)
+    p2k = os.path.join(d, "in2_kept.tsv")
+    write_rows(p2k, [r for r in rows2 if r["mutation_id"] in kept2])
+    cf2 = os.path.join(d, "cl2.tsv")
+    with open(cf2, "w") as fh:
+        fh.write("mutation_id\tcluster_id\n" + "".join("%s\t%s\n" % (m, cl2[m]) for m in muts2))
+    ck.evaluations += 1
+    try:
+        un, _ = load(p2k, "binomial", 7, 400.0, outlier_prob=0.0)
+        data, _ = load(p2, "binomial", 7, 400.0, cluster_file=cf2, outlier_prob=0.0)
+        by = {dp.name: dp for dp in un}
+        if [dp.name for dp in data] != ["K1", "K2", "K3"]:
+            ck.violation("C05|cluster|names", "clustered data points %s, expected K1..K3 (members dropped by the loader)" % [dp.name for dp in data], {"dropped": ["a2", "b2", "b4"]})
+        else:
+            for dp in data:
+                members = [m for m in kept2 if cl2[m] == dp.name]
+                if not np.allclose(dp.value, sum(by[m].value for m in members), rtol=0, atol=1e-12):
+                    ck.violation("C05|cluster|value|dropped_members", "cluster %s is not the sum of the grids of its kept members %s (the cluster file also lists a2, b2, b4, which the loader drops)" % (
+                        dp.name, members), {"cluster": dp.name, "members": members})
+    except Exception as ex:  # noqa
+        if "/phyclone/" not in "".join(f.filename for f in __import__("traceback").extract_tb(ex.__traceback__)):
+            raise
+        ck.violation("C05|cluster|exception:%s" % type(ex).__name__, "loading a clustered input whose cluster file lists dropped mutations raised %s: %s" % (type(ex).__name__, ex), {"dropped": ["a2", "b2", "b4"]})
+    ck.nontrivial("cluster:dropped_members")
     shutil.rmtree(d, ignore_errors=True)
 
 
@@ -252,7 +293,7 @@ def run(corrupt=None):
     mixed_file(ck, recs, G, ck.seed + 1)
     cluster_part(ck)
     lossprob.model_runs(ck, thorough)
-    lossprob.bind(ck, "C05", 240 if thorough else 60, (0, 3), ck.seed, want_order=False)
+    lossprob.bind(ck, "C05", 240 if thorough else 60, (0, 3), ck.seed, want_order=False, spec_verdict=True)
     shutil.rmtree(workdir, ignore_errors=True)
     ck.sample({"cfg": recs[0]["cfg"], "genotypes": recs[0]["genotypes"], "vaf_first_genotype": recs[0]["vaf"][0]})
     ck.rule = ("copy-number / error-rate / tumour-content configurations enumerated by TLC (quick: seeded sample of 120 of 243; thorough: all incl. major 4) x 4-7 "
